@@ -60,6 +60,7 @@ def check(ctx):
     ctx.run_shared(_c15.r15_5, _g)
     ctx.run_shared(_c15.r15_6, _g)
     ctx.run_shared(_c15.r15_10, _g)
+    ctx.run_shared(_c15.r15_11, _g)
     # mechanisms this property rests on (see shared.py): a change there is reported here as well
     from . import shared as _sh
 
